@@ -56,6 +56,7 @@ fn main() {
         "C05" => props::c05::run(rest),
         "C09" => props::c09::run(rest),
         "C11" => props::c11::run(rest),
+        "C12" => props::c12::run(rest),
         "C13" => props::c13::run(rest),
         "C16" => props::c16::run(rest),
         "C18" => props::c18::run(rest),
